@@ -86,7 +86,11 @@ def run(ctx: Context) -> None:
         evictions = [c for c in calls_named(f, "append") if norm(c.func.value) == "closing_connections"]
         rep.floor("C09.R3", f"eviction sites ({tree})", len(evictions), 2)
         for i, c in enumerate(evictions):
-            at = guard_atoms(guards_of(c))
+          from ..norm import guard_alternatives
+
+          reasons_all = []
+          details_all = []
+          for at in guard_alternatives(guards_of(c)):   # a merged `A or B` condition: every way to get here needs a reason
             reason = None
             detail = f"guards {sorted(at)}"
             arg = norm(c.args[0]) if c.args else "?"
@@ -96,8 +100,8 @@ def run(ctx: Context) -> None:
                 # surplus idle: the comparison with the keep-alive limit must count idle connections only
                 cmp = None
                 for test, pol in guards_of(c):
-                    for atom, p in conj_atoms(test, pol):
-                        if p and isinstance(atom, ast.Compare) and "_max_keepalive_connections" in norm(atom):
+                    for atom in ast.walk(test):
+                        if isinstance(atom, ast.Compare) and "_max_keepalive_connections" in norm(atom) and canon_atom(atom, True) in at:
                             cmp = atom
                 if cmp is None:
                     detail = "idle connection evicted without comparing the idle count with the keep-alive limit"
@@ -140,6 +144,12 @@ def run(ctx: Context) -> None:
                     reason = "room at the limit"
                 else:
                     detail = f"eviction to make room: idle list {why}; victim from idle list: {from_idle}; limit reached: {at_limit}"
+            reasons_all.append(reason)
+            details_all.append(detail)
+          if True:
+            reason = None if (not reasons_all or any(r is None for r in reasons_all)) else " / ".join(sorted(set(reasons_all)))
+            detail = next((d for r, d in zip(reasons_all, details_all) if r is None), "no guard")
+            arg = norm(c.args[0]) if c.args else "?"
             rep.ob("C09.R3", fkey(tree, f, f"evict-{i}"), reason is not None, where(f, c),
                    f"eviction reason: {reason}" if reason else f"pooled connection closed without one of the allowed reasons - {detail}")
             # the evicted connection is removed from the pool in the same block
